@@ -206,24 +206,97 @@ def one_variant(acc, case, key, V, Xf, rows, n, p):
     return True
 
 
+def big_series(n, p):
+    t = np.arange(n, dtype=float)
+    cols = [((t * (7 + 2 * j) + 3) % 11) - 5.0 + 4.0 * ((t // (37 + 11 * j)) % 2) + 0.25 * ((t * t + j) % 3) for j in range(p)]
+    return np.column_stack(cols)
+
+
+def check_big_batch(acc, vname, n, p):
+    """Batch independence at scale: ALL admissible intervals of a length-n series in ONE call (up to ~180 000 rows) must
+    agree with the same intervals evaluated in chunks of 997 rows and in chunks of 4099 rows taken in reverse order (an
+    implementation that processes cuts block-wise must not depend on where the blocks fall), and every 89th row must
+    agree with the exact rational reference."""
+    V = [v for v in variants.variants(p) if v.name == vname][0]
+    X = big_series(n, p)
+    rows = costref.frac_rows([tuple(map(float, r)) for r in X.tolist()])
+    acc.ev()
+    case = {"big_batch": True, "variant": vname, "n": n, "p": p}
+    key = {"variant": vname, "big_batch": True}
+    try:
+        with core.case_timer(900):
+            cost = V.make().fit(X)
+            ms = V.min_size
+            ivs = np.array([(s, e) for s in range(n) for e in range(s + ms, n + 1)], dtype=np.int64)
+            whole = cost.evaluate(ivs)
+            if whole.shape != (len(ivs), V.width(p)):
+                acc.violation("cost-shape-or-exception", case, f"shape {whole.shape} != {(len(ivs), V.width(p))}", key)
+                return
+            for chunk, rev in ((997, False), (4099, True)):
+                parts = []
+                idx = list(range(0, len(ivs), chunk))
+                for lo in (idx[::-1] if rev else idx):
+                    sub = ivs[lo:lo + chunk]
+                    out = cost.evaluate(sub[::-1] if rev else sub)
+                    parts.append((lo, out[::-1] if rev else out))
+                parts.sort(key=lambda t: t[0])
+                again = np.vstack([o for _, o in parts])
+                bad = np.flatnonzero(~np.all(np.isclose(again, whole, rtol=1e-12, atol=1e-12), axis=1))
+                if len(bad):
+                    i = int(bad[0])
+                    acc.violation("cost-batch-dependence", dict(case, interval=ivs[i].tolist(), chunk=chunk),
+                                  f"{vname}: interval {ivs[i].tolist()} gives {whole[i]!r} in one call of {len(ivs)} rows but {again[i]!r} in chunks of {chunk}", key)
+                    return
+            for i in range(0, len(ivs), 89):
+                s_, e_ = map(int, ivs[i])
+                for j, (st, v) in enumerate(V.ref(rows[s_:e_])):
+                    if st == "value" and not util.close(whole[i][j], v, 1e-8):
+                        acc.violation("cost-value", dict(case, interval=[s_, e_]), f"{vname} on [{s_},{e_}) column {j}: got {whole[i][j]!r}, definition gives {v!r}", key,
+                                      expected=v, observed=float(whole[i][j]))
+                        return
+            acc.count("big_batch_rows", len(ivs))
+            acc.nt()
+    except core.CaseTimeout:
+        acc.violation("timeout", case, "evaluate did not return", key)
+    except RuntimeError:
+        acc.count("big_batch_nonpd_skipped")
+    except Exception as e:
+        acc.violation("cost-shape-or-exception", case, f"{vname} big batch: {type(e).__name__}: {e}", dict(key, exc=type(e).__name__))
+
+
+def big_configs(tier):
+    q = tier == "quick"
+    out = []
+    for vname in ("L2/opt", "L2/percol", "GV/opt", "GV/percol"):
+        out.append((vname, 300 if q else 600, 2))
+    for vname in ("Cov/opt", "Cov/spd"):
+        out.append((vname, 60 if q else 120, 2))
+    return out
+
+
 def shards(tier, seed):
-    sh = []
+    sh = [("big",) + c for c in big_configs(tier)]
     for (an, n, p) in spaces(tier, seed):
         total = len(alphabets(seed)[an]) ** (n * p)
         step = 256 if n * p >= 6 else 4096
         for lo in range(0, total, step):
             sh.append((an, n, p, seed, lo, min(total, lo + step)))
-    sh.sort(key=lambda s: -(s[5] - s[4]) * s[1] ** 2)
+    sh[len(big_configs(tier)):] = sorted(sh[len(big_configs(tier)):], key=lambda s: -(s[5] - s[4]) * s[1] ** 2)
     return sh
 
 
 def bounds(tier, seed):
     return {"spaces(alphabet,n,p)": [list(s) for s in spaces(tier, seed)],
             "alphabets": {k: list(v) for k, v in alphabets(seed).items()},
-            "variants": [v.name for v in variants.variants(2)]}
+            "variants": [v.name for v in variants.variants(2)],
+            "big_batch(variant,n,p)": [list(c) for c in big_configs(tier)]}
 
 
 def run_shard(shard):
+    if shard[0] == "big":
+        acc = core.Acc()
+        check_big_batch(acc, shard[1], shard[2], shard[3])
+        return acc
     an, n, p, seed, lo, hi = shard
     acc = core.Acc()
     alph = alphabets(seed)[an]
@@ -234,6 +307,9 @@ def run_shard(shard):
 
 def replay(case):
     acc = core.Acc()
+    if case.get("big_batch"):
+        check_big_batch(acc, case["variant"], case["n"], case["p"])
+        return acc.violations
     X = tuple(tuple(r) for r in case["x"])
     n, p = len(X), len(X[0])
     Xf = np.array(X, dtype=float)
